@@ -33,7 +33,7 @@ CHECKS = {
             "4 C15"),
     "C13": ("M", "exploration",
             "Restart of a whole model with real I/O: generated quantized models over every layer class of the custom-object table are rebuilt from JSON, the library clone, HDF5 on a scratch path, HDF5 through a simulated file object under h5py's file-object driver, and a weights file, at arbitrary points of a history (weight perturbations, an export, a completed or interrupted noise schedule that left variable-backed knobs, training calls moving QAdaptiveActivation ranges, a real optimizer step whose optimizer state is saved too, compile); predictions must be bit-identical and layers must report the same quantizers, with no custom objects. Disk faults (ENOSPC/EIO at the n-th write, short writes, crash with only flushed bytes surviving) are injected into model.save: the live model must stay untouched and a subsequent complete save must round-trip. Sampling, not proof.",
-            BASE + "crash granularity = write/flush calls h5py issues on the file object; the content of a torn file is counted, not judged (the property does not say what a truncated HDF5 must do); QConv2DTranspose excluded (cannot run on TF 2.21).",
+            BASE + "crash granularity = write/flush calls h5py issues on the file object; a torn file is not opened (the property does not say what a truncated HDF5 must do, and HDF5 can spin forever on one); QConv2DTranspose excluded (cannot run on TF 2.21).",
             TECH + "restart-from-durable-state histories on generated models, SimFile disk with injected write errors/short writes/crashes, read-only invariant on the live model",
             "4 C13"),
     "C14": ("M", "fault_enumeration",
